@@ -196,6 +196,19 @@ func (c *vfClient) rawCall(prog, vers, proc uint32, args []byte) (uint32, []byte
 	reply, err := c.s.ph.HandleCall(call, body, ctx)
 	if err != nil {
 		if el := time.Since(t0); el >= 5*time.Second && strings.Contains(err.Error(), "timed out") {
+			// ... unless the request is structurally stuck: handler goroutines that sit in a lock
+			// acquisition, the very same ones again two seconds later. That is a deadlock (or a
+			// lock that was never given back), a verdict for whichever monitor sent the request.
+			first := vfC29LockWaiters()
+			if len(first) > 0 {
+				time.Sleep(2 * time.Second)
+				second := vfC29LockWaiters()
+				for id, st := range second {
+					if _, was := first[id]; was {
+						return xid, nil, fmt.Errorf("HandleCall: %w - the request is stuck: a handler goroutine has been waiting for a lock in two goroutine dumps 2 s apart (deadlock or a lock never released): %s", err, strings.SplitN(st, "\n", 6)[min64i(4, len(strings.SplitN(st, "\n", 6))-1)])
+					}
+				}
+			}
 			// the server's own wall-clock timeout (30 s by default) expired on a request that got at
 			// least 5 s: on a loaded machine that is no verdict about anything but the clock.
 			// evid records a violation carrying this marker as an inconclusive episode instead.
